@@ -49,7 +49,10 @@ fn origin_of(bt: &str) -> String {
 /// instantiated in a crate built with overflow checks: production (release) builds wrap instead.
 pub fn is_debug_only_dependency_overflow(p: &PanicInfo) -> bool {
     let arith = p.message.starts_with("attempt to ") && (p.message.contains("overflow") || p.message.contains("divide by zero") == false && p.message.contains("with overflow"));
-    arith && !matches!(p.origin.as_str(), "melstf" | "melvm" | "tip911_stakeset" | "unknown")
+    // only for the crate where this was checked by hand in a production-like build (DESIGN 5.10): the trap inside
+    // catvec's length arithmetic beyond 2^64 elements is silent there. A trap anywhere else stays a violation - a
+    // wrap in production is not automatically harmless (F21: a wrapped sum of covenant weights made fees vanish)
+    arith && p.origin.as_str() == "catvec"
 }
 
 static RECORDS: Mutex<Vec<PanicInfo>> = Mutex::new(Vec::new());
